@@ -200,6 +200,86 @@ def run(ctx):
         o = outcome(lambda: DT.from_ticks(t).year)
         if o[0] != "err":
             ctx.violation(what="fields outside [min,max]", ticks=t, observed=show(o), required="an error, never wrapped fields")
+    # ---- arbitrary constructor fields (not only the exact fields of a tick value): the tick count is the nearest tick, and
+    # everything the object shows afterwards - fields, str, repr - belongs to that tick count, also when rounding carries into the
+    # next second / minute / day / year
+    import hightime as ht
+    from fractions import Fraction
+    EPOCH_ORD = dt.date(1904, 1, 1).toordinal()
+    for case in range(400 if ctx.quick else 20000):
+        c = rng.random()
+        y, mo, d = rng.randint(1, 9999), rng.randint(1, 12), rng.randint(1, 28)
+        h, mi, sec = rng.randint(0, 23), rng.randint(0, 59), rng.randint(0, 59)
+        if c < 0.5:
+            # a fraction within a few ticks of the next whole second, at the end of a minute / hour / day / month / year
+            us, fs = 999_999, 999_999_999
+            ys = rng.choice([999_999_999, 999_972_896, 999_972_895, 999_945_790, 999_990_000, 999_900_000, rng.randint(999_900_000, 999_999_999)])
+            k = rng.random()
+            if k < 0.7: sec = 59
+            if k < 0.55: mi = 59
+            if k < 0.4: h = 23
+            if k < 0.25: mo, d = rng.choice([(12, 31), (1, 31), (2, 28), (6, 30)])
+            if k < 0.08: y = rng.choice([1903, 1999, 2024, 2025, 9998, 1])
+        else:
+            us, fs, ys = rng.choice([0, 1, 999_999, rng.randrange(10**6)]), rng.choice([0, 1, 999_999_999, rng.randrange(10**9)]), rng.choice([0, 1, 27105, 54210, 999_999_999, rng.randrange(10**9)])
+        fields = (y, mo, d, h, mi, sec, us, fs, ys)
+        for how, mk in (("fields", lambda: DT(*fields, tzinfo=dt.timezone.utc)),
+                        ("hightime", lambda: DT(ht.datetime(*fields[:7], femtosecond=fs, yoctosecond=ys, tzinfo=dt.timezone.utc)))):
+            o = outcome(mk)
+            exact = ((dt.date(y, mo, d).toordinal() - EPOCH_ORD) * 86400 + h * 3600 + mi * 60 + sec) * T64 + Fraction((us * 10**18 + fs * 10**9 + ys) * T64, 10**24)
+            ctx.case(("ctor-fields", fields, how))
+            if o[0] != "ok":
+                if DT_MIN <= exact <= DT_MAX - 1:
+                    ctx.violation(what="constructor refused valid fields", how=how, fields=fields, observed=show(o), required="a DateTime")
+                continue
+            x = o[1]
+            if abs(x.ticks - exact) > Fraction(1, 2):
+                ctx.violation(what="constructor tick count is not the nearest tick", how=how, fields=fields, observed=x.ticks, required=f"within 1/2 tick of {float(exact)}")
+                continue
+            if not (DT_MIN <= x.ticks <= DT_MAX):
+                continue        # one tick past the last representable calendar instant: nothing to show
+            canon = DT.from_ticks(x.ticks)
+            oo = outcome(lambda: (str(x), repr(x), (x.year, x.month, x.day, x.hour, x.minute, x.second, x.microsecond, x.femtosecond, x.yoctosecond)))
+            req = (str(canon), repr(canon), expected_fields(x.ticks))
+            if oo != ("ok", req):
+                ctx.violation(what="a DateTime built from fields shows other text / fields than its tick value has", how=how, fields=fields, ticks=x.ticks,
+                              observed=str(oo[1] if oo[0] == "ok" else show(oo))[:300], required=str(req)[:300])
+            ctx.count("ctor-fields", "carry into next second" if (x.ticks >> 64) != int(exact // T64) else "same second")
+    # ---- instants derived from other instants (x + d, x - d, d + x) after x has been looked at: what the result shows belongs to
+    # the result's own tick count (no field, date or text is inherited from the operand)
+    for case in range(300 if ctx.quick else 15000):
+        day = rng.randint(-690000, 2_900_000)
+        frac = rng.choice([T64 // 4 * 3, T64 // 2, T64 - 1, T64 // 10 * 6, rng.randrange(T64)])
+        t = (day * 86400 + rng.choice([86399, 86399, 86398, 0, 43200, rng.randrange(86400)])) * T64 + frac
+        if not (DT_MIN <= t <= DT_MAX):
+            continue
+        x = DT.from_ticks(t)
+        looked = rng.random() < 0.8
+        if looked:
+            _ = (x.year, x.month, x.day, repr(x), str(x))
+        chain = [x]
+        for _step in range(rng.choice([1, 1, 2, 4])):
+            dticks = rng.choice([T64 // 2, T64 // 4, T64 // 10 * 4, 1, T64 - frac, T64, -T64 // 2, -(frac + 1), 86400 * T64, rng.randrange(2 * T64)])
+            d = TD.from_ticks(dticks)
+            prev = chain[-1]
+            o = outcome(rng.choice([lambda: prev + d, lambda: d + prev, lambda: prev - TD.from_ticks(-dticks)]))
+            if o[0] != "ok":
+                break
+            y = o[1]
+            if not (DT_MIN <= y.ticks <= DT_MAX):
+                break
+            if y.ticks != prev.ticks + dticks:
+                ctx.violation(what="x + d has another tick count than x.ticks + d.ticks", ticks=prev.ticks, delta=dticks, observed=y.ticks, required=prev.ticks + dticks)
+                break
+            oo = outcome(lambda: ((y.year, y.month, y.day, y.hour, y.minute, y.second, y.microsecond, y.femtosecond, y.yoctosecond), str(y), repr(y)))
+            canon = DT.from_ticks(y.ticks)
+            req = (expected_fields(y.ticks), str(canon), repr(canon))
+            ctx.case(("derived", t, dticks, looked))
+            if oo != ("ok", req):
+                ctx.violation(what="a DateTime derived by + / - shows other fields / text than its tick value has", start_ticks=t, delta_ticks=dticks,
+                              operand_was_read=looked, ticks=y.ticks, observed=str(oo[1] if oo[0] == "ok" else show(oo))[:300], required=str(req)[:300])
+                break
+            chain.append(y)
     # ---- TimeDelta oracle -----------------------------------------------------------------
     tds = [t for t in edge_ticks() if I128_MIN <= t <= I128_MAX]
     tds += [rand_ticks(rng, True) for _ in range(2000 if ctx.quick else 100000)]
